@@ -9,10 +9,10 @@ import (
 
 // effSet is the set of heap keys a function may write (transitively), or "all".
 type effSet struct {
-	all   bool
-	keys  map[string]bool
-	fresh map[string]bool // keys written only inside objects allocated by the function itself
-	why   string
+	all    bool
+	keys   map[string]bool
+	fresh  map[string]bool // keys written only inside objects allocated by the function itself
+	why    string
 	except map[string]bool // with all: keys known not to be written (from preserves clauses)
 }
 
